@@ -34,6 +34,7 @@ type Solver struct {
 
 var SolverTimeoutMs = 30000
 var SolverKind = "z3" // z3 | z3-new | cvc5
+var SlowLog io.Writer
 var QueryLogDir = ""  // if set, every worker logs its SMT dialogue there
 
 func newSolver(id int) *Solver {
@@ -112,6 +113,9 @@ func (s *Solver) Check() string {
 	t0 := time.Now()
 	r, ok := s.roundtrip("(check-sat)")
 	d := time.Since(t0)
+	if SlowLog != nil && d > 2*time.Second {
+		fmt.Fprintf(SlowLog, "SLOW %v -> %s\n", d, r)
+	}
 	s.Time += d
 	if d > s.MaxTime {
 		s.MaxTime = d
